@@ -126,6 +126,15 @@ CHECKS = {
                      "poles x longitudes incl. +-180 x heights -10 km..20000 km) with exact anchors on the equator and at the poles, and lattice offsets "
                      "in all quadrants for bearing/distance (anti)symmetry and consistency with coordinate differences.",
                 note="blh2xyz has no independent definition in TLA+ (trigonometry): round trip + exact anchors only", ref="8/C18"),
+    "C15": dict(cat="model_checking", technique="TLC-explored object life-cycle model replayed step by step under ASan + exact algebra cases from TLC",
+                text="MatVecObjects.tla is a value-semantics model of three container objects under construct / copy-assign / copy-construct+move / move / "
+                     "self-assign / reset / element write with sizes 0, 1x2, 2x2; TLC explores all behaviours up to the bound (plus random walks of length "
+                     "9) and every behaviour is replayed on Vec and Mat (ASan+UBSan and plain builds) comparing dimensions and all elements of all "
+                     "objects after every step. MatAlgebra.tla supplies small integer matrices with exact products, determinants, adjugates and ranks: "
+                     "products, transposes, sums, inv, SVD (reconstruction, orthonormality, rank), pinv (four Moore-Penrose conditions), Cholesky in "
+                     "SymMat/BandMat/CovMat storage, and exceptions for non-conforming operands are checked.",
+                note="a moved-from object is 'unspecified' in the model (not compared); SymMat/CovMat life cycle, sortvec, transvec and random "
+                     "ill-conditioned reals are not covered", ref="8/C15"),
 }
 
 NOT_APPLICABLE = []
